@@ -343,6 +343,61 @@ func c13Judge(run *vfRun, o *c13Outcome, faults []c13Fault, base []string) {
 	}
 }
 
+// c13HungStoreReadiness: the store answers PING only after 3.5 s, the client's read timeout is 2.5 s (go-redis default: 3 s),
+// the prober is patient (the direct driver waits 60 s). Not ready is the only right answer; a 200 means the probe was
+// answered although no PING was. A control probe against the healthy store must answer 200.
+func c13HungStoreReadiness(t *testing.T, run *vfRun, w *vfWorld, htp string) {
+	mr, err := miniredis.Run()
+	if err != nil {
+		t.Fatalf("miniredis: %v", err)
+	}
+	hub := vfNewRedisHub(mr)
+	front := hub.Front(99)
+	w.OnClose(func() { hub.Close(); mr.Close() })
+	p, err := w.NewProxy("--session-store-type=redis", "--redis-connection-url="+front.URL("read_timeout=2500ms&write_timeout=2500ms&dial_timeout=1s&max_retries=-1"),
+		"--htpasswd-file="+htp, "--ready-path=/ready")
+	if err != nil {
+		t.Fatalf("hung-store instance: %v", err)
+	}
+	if resp := p.Do(vfGET("/ready")); resp.Code != 200 {
+		run.Inconclusive(fmt.Sprintf("rig: readiness control against the healthy store answered %d", resp.Code))
+		return
+	}
+	for _, via := range []string{"direct", "wire"} {
+		var mu sync.Mutex
+		var ops []string
+		hub.SetHooks(func(cmd *vfRedisCmd) vfRedisDecision {
+			mu.Lock()
+			defer mu.Unlock()
+			if cmd.Op == "PING" {
+				ops = append(ops, "PING!hang")
+				return vfRedisDecision{Fault: &vfRedisFault{Kind: "stall", Stall: 3500 * time.Millisecond}}
+			}
+			ops = append(ops, cmd.Op)
+			return vfRedisDecision{}
+		}, nil)
+		var resp *vfResp
+		if via == "wire" {
+			resp = p.Wire(vfGET("/ready"))
+		} else {
+			resp = p.Do(vfGET("/ready"))
+		}
+		hub.SetHooks(nil, nil)
+		mu.Lock()
+		o := &c13Outcome{Scenario: "ready-hung-store", Faults: []string{"hang(3.5s)@PING"}, Ops: append([]string{}, ops...), Status: resp.Code, Panic: resp.Panic, Flags: p.Flags, Note: ""}
+		mu.Unlock()
+		run.Eval("ready-hung-store|" + via + "|PING answered after the client's read timeout")
+		run.Count("hung_store_readiness_probes", 1)
+		if resp.Panic != "" {
+			run.Violation("c13:panic", "request handling panicked under a store fault: "+vfTrunc(resp.Panic, 100), o)
+		}
+		if resp.Code >= 200 && resp.Code < 400 {
+			run.Violation("c13:ready-while-store-unreachable", fmt.Sprintf("/ready answered %d (%s driver, body %q) although the store did not answer the PING within the client's timeout", resp.Code, via, vfTrunc(string(resp.Body), 40)), o)
+		}
+		time.Sleep(1200 * time.Millisecond) // the client gave up at 2.5 s; let the stalled reply (3.5 s) go by before the next probe
+	}
+}
+
 func TestVerif_C13(t *testing.T) {
 	run := vfNewRun(t, "C13", "fault_enumeration")
 	run.SetRule("per scenario (login, form-login, request, auth-only, userinfo, refresh, refresh without refresh token, sign-out GET/POST, ready): fault-free run records the store-operation sequence; then every position x every fault kind " +
@@ -357,6 +412,10 @@ func TestVerif_C13(t *testing.T) {
 	for i := range cells {
 		cells[i] = c13NewCell(t, run, w, htp, i)
 	}
+	// readiness with a store that accepts the connection and never answers in time (black-holed / frozen Redis): an instance
+	// with realistic client timeouts (seconds, not the 150 ms of the enumeration cells); runs next to the enumeration
+	hangDone := make(chan struct{})
+	go func() { defer close(hangDone); c13HungStoreReadiness(t, run, w, htp) }()
 	type job struct {
 		scn     string
 		retries bool
@@ -467,6 +526,7 @@ func TestVerif_C13(t *testing.T) {
 		}(cells[i])
 	}
 	wg.Wait()
+	<-hangDone
 	run.RaceCheck("")
 	run.SetExhaustive(true)
 	run.Finish(500, 150)
